@@ -245,7 +245,7 @@ pub fn panic_case(p: &Profile) -> BoxedStrategy<Case> {
     healthy.stepw = StepW { awaitgate: 0, opengate: 0, blockongate: 0, nested_sync: 0, nested_desync: 1, nested_futdesync: 0, awaitfutsync: 0, awaitfutdesync: 0, ..StepW::default() };
     let bystanders = vec(vec(op_strategy(&healthy), 0..=3), 0..=2);
     let phase2 = vec(vec(op_strategy(&healthy), 1..=4), 1..=3);
-    (1u8..=3, 2u8..=4, 0u8..15, bystanders, phase2, sched_strategy(p.sched_bytes), prop::bool::weighted(0.3), vec(0u8..5, 1..=3), (prop::bool::weighted(0.3), vec((any::<u8>(), 0u8..4), 0..=2), prop::bool::weighted(0.2))).prop_map(|(pool, objects, ctx, mut by, mut ph2, sched, unlock_points, attempts, (quiet, parked, second))| {
+    (1u8..=3, 2u8..=4, 0u8..17, bystanders, phase2, sched_strategy(p.sched_bytes), prop::bool::weighted(0.3), vec(0u8..5, 1..=3), (prop::bool::weighted(0.3), vec((any::<u8>(), 0u8..4), 0..=2), prop::bool::weighted(0.2))).prop_map(|(pool, objects, ctx, mut by, mut ph2, sched, unlock_points, attempts, (quiet, parked, second))| {
         // the panicking op and its runner context
         let mut callers: Vec<Vec<Op>> = vec![];
         let panic_body = vec![Step::Touch, Step::Yield, Step::Panic];
@@ -306,6 +306,11 @@ pub fn panic_case(p: &Profile) -> BoxedStrategy<Case> {
             14 => {
                 callers.push(vec![Op::Sync { o: 0, body: vec![Step::Yield, Step::Yield, Step::Yield], id: 0 }]);
                 callers.push(vec![Op::Yield, Op::Sync { o: 0, body: panic_body, id: 0 }]);
+            }
+            // a future job that its own awaiting task runs (when the pool is late): it suspends, and panics on the poll that resumes it
+            15 => {
+                callers.push(vec![Op::FutDesync { o: 0, body: vec![Step::AwaitGate { g: 0 }, Step::Panic], slot: 0, id: 0 }, Op::Await { slot: 0 }]);
+                callers.push(vec![Op::Yield, Op::Yield, Op::Yield, Op::OpenGate { g: 0 }]);
             }
             // a plain job that holds a handle on a healthy object panics: the handle is released while unwinding
             _ => callers.push(vec![Op::Desync { o: 0, body: vec![Step::NestedDesync { o: 255, body: vec![Step::Touch], id: 0 }, Step::Yield, Step::Panic], id: 0 }]),
